@@ -300,7 +300,7 @@ def canon_gro(mol):
 # generator
 # ----------------------------------------------------------------------------
 ALPHA = LETTERS + '0123456789' * 3 + "'*+-_"
-ALPHAD = ALPHA + '.' * 12        # names with points: 'C1.A', 'ZN2.' (legal; read_gro counts the points of its first line)
+ALPHAD = ALPHA + '.' * 12        # names with points: 'C1.A', 'ZN2.'
 HOSTILE = ALPHA + '#. '
 
 
@@ -609,18 +609,10 @@ def run_gro(cid, case0, precision=None):
         else:
             use = False
         cnt('gro_letterless_name')
-    elif gro_first_points(case) == 3:
-        # read_gro takes a first atom line with six points for one with velocities: three points in the names of
-        # the first atom make it expect velocity columns (candidate finding F-C16-4, see the notes)
-        if 'F-C16-4' in known:
-            finding = 'F-C16-4'
-        else:
-            use = False
-        cnt('gro_first_line_three_points')
     if kind != 'hostile' and any('.' in (a['atomname'] or '') + (a['resname'] or '') for m in case['mols'] for a in m['atoms']):
         cnt('gro_points_in_names')
-        if gro_first_points(case) not in (0, 3):
-            cnt('gro_points_in_first_line_names')
+        if gro_first_points(case):
+            cnt('gro_points_in_first_line_names=%d' % min(gro_first_points(case), 4))
     cnt('gro_read_' + impl_r.split()[0] + ('' if exc is None else '_' + impl_r.split()[1]))
     records.append((cid + '-growrite', wline, impl_w, [], nontriv, None, True))
     rline = line('groread', [], False, flines)
@@ -720,6 +712,16 @@ HELPERS = {'gro_variant': gro_variant, 'STR_ATTRS': STR_ATTRS, 'has_letter': has
 rngx = chk.rng('xsys')
 for i in range(2000 if chk.thorough else 250):
     cases.append(('xsys-%d' % i, c16_full.extend_case(rngx, rand_case(rngx, 'plain'))))
+# must-pass (F-C16-4, repaired): points in the names of the FIRST atom line of a file written with velocities
+for i, (rn, an) in enumerate([('A.', 'C'), ('ZN2.', 'C1.A'), ('A.B.', 'C.'), ('ALA', 'C...')]):
+    fx = {'mols': [{'atoms': [atom(0, 1, atomname=an, resname=rn, resid=1, x=1500, y=-2250, z=1, element='C'),
+                              atom(1, 2, atomname='CA', resname='ALA', resid=2, x=3000, y=-4500, z=2, element='C')],
+                    'edges': [(0, 1)]}], 'conect': True, 'kind': 'xsys'}
+    for a in fx['mols'][0]['atoms']:
+        a.update(haspos=True, vel=(1000 + i, -2000, 3000), charge=0)
+    fx.update(omit_charges=True, nan_missing_pos=False, precision=7, title='points in the first names', via='string',
+              box=[('dec', 1500, 3), ('int', 2), ('dec', 3250, 3)], velmode='all', posmode='all', chmode='none')
+    cases.append(('xsys-fixed-points-%d' % i, fx))
 rngt = chk.rng('pdbtext')
 for i in range(4000 if chk.thorough else 500):
     cases.append(('pdbtext-%d' % i, c16_full.rand_pdbtext(rngt)))
@@ -799,12 +801,6 @@ for (cid, ln, impl, errs, nontriv, finding, use), mo in zip(records, models):
         mo = None     # python formatting outside the model (',' grouping, types b c o x n e g %, '_', 'z')
         chk.count('fmt_model_unmodelled')
     chk.case(cid, ln, impl, mo, errs, nontriv, finding)
-if 'F-C16-4' not in known:
-    chk.notes.append('read_gro decides that a file has velocities by counting ALL points of the first atom line: exactly '
-                     'three points in the residue/atom name of the first atom (no velocities written) make it raise '
-                     'ValueError, any point there when velocities are written makes it drop the velocities; such systems '
-                     'are compared with the model only and counted as gro_first_line_three_points / '
-                     'x_gro_velocities_lost_point_in_first_name (candidate finding F-C16-4)')
 if 'F-C16-3' not in known:
     chk.notes.append('a CONECT record between atoms of two molecules makes PDBParser._do_single_conect merge them and put '
                      'the bond on the wrong atom (index not shifted after disjoint_union); never written by vermouth within '
